@@ -1,4 +1,5 @@
 import Tea.Proofs.Modes
+import Tea.Proofs.Tty
 /-
 C05 — The terminal is restored on every exit path (mode part).
 
@@ -21,8 +22,8 @@ terminal the program starts on, in that state; its size, contents and cursor are
 The general theorems start from ANY renderer / terminal pair whose tracked flags agree
 (`Tracked`, an invariant of every renderer operation: `C05_tracked_flags_sound`), so the
 point at which the exit strikes - during start-up, between any two commands, after a
-renderer stop - does not matter. The tty's line discipline (raw mode) and the input
-reader are outside these models.
+renderer stop - does not matter. The tty's line discipline (raw mode) is modelled separately
+(section 4 below, Tea/Render/Tty.lean); the input reader is outside these models.
 Only property theorems live here; helper lemmas are in `Tea/Proofs/Modes.lean`.
 -/
 namespace Tea.Props.C05
@@ -162,5 +163,193 @@ not know the terminal is on the alt screen leaves it there -/
 example :
     modesOf (applyOps { term0 with onAlt := true } (runOps {} (restoreOps {})).2) =
       { alt := true } := by decide
+
+/-! ### 4. the line discipline (termios) of the input terminal
+
+"... and, when input is a terminal, its line-discipline (termios) settings identical to those
+before Run. This holds for every combination of startup options and every sequence of
+mode-changing commands issued while running [incl. exec]."
+
+Model: Tea/Render/Tty.lean. The settings are an abstract value of an arbitrary type `σ`; `s0`
+are the settings before Run; `raw : σ → σ` is an ARBITRARY function (what `term.MakeRaw` does).
+`TtyState` = (`cur`: the terminal's settings now, `saved`: `previousTtyInputState`, `isTty`).
+`initInput` remembers the CURRENT settings and applies `raw`; `restoreInput` puts the remembered
+settings back (and keeps them). `runTty raw isTty s0 evs k` = start-up (`initInput`), the
+events `evs` (`exec` = ReleaseTerminal; command; RestoreTerminal - `releaseOnly` / `restoreOnly`
+= the application calling ReleaseTerminal / RestoreTerminal itself), the exit `k` (`restoreInput`
+once for `quit` / `ctx`, twice for `killApi`). Options and mode commands do not touch termios,
+so they do not appear. Assumed: MakeRaw / Restore succeed; nobody else (in particular the
+command run by exec) leaves the settings changed. Helper lemmas: Tea/Proofs/Tty.lean. -/
+
+section Termios
+variable {σ : Type}
+
+/-- vocabulary, restated -/
+theorem runTty_def (raw : σ → σ) (isTty : Bool) (s0 : σ) (evs : List TtyEvent) (k : ExitKind) :
+    runTty raw isTty s0 evs k =
+      { final := ttyExit (ttyEvents raw (initInput raw ⟨s0, none, isTty⟩) evs) k
+        during := ttyDuringAll raw (initInput raw ⟨s0, none, isTty⟩) evs
+        between := (initInput raw ⟨s0, none, isTty⟩).cur ::
+          ttyBetweenAll raw (initInput raw ⟨s0, none, isTty⟩) evs } := rfl
+
+theorem initInput_def (raw : σ → σ) (c : σ) (sv : Option σ) :
+    initInput raw ⟨c, sv, true⟩ = ⟨raw c, some c, true⟩ ∧ initInput raw ⟨c, sv, false⟩ = ⟨c, sv, false⟩ :=
+  ⟨rfl, rfl⟩
+
+theorem restoreInput_def (c s : σ) (sv : Option σ) :
+    restoreInput ⟨c, some s, true⟩ = ⟨s, some s, true⟩ ∧ restoreInput ⟨c, none, true⟩ = ⟨c, none, true⟩ ∧
+    restoreInput ⟨c, sv, false⟩ = ⟨c, sv, false⟩ :=
+  ⟨rfl, rfl, rfl⟩
+
+theorem ttyStep_def (raw : σ → σ) (t : TtyState σ) :
+    ttyStep raw t .exec = initInput raw (restoreInput t) ∧
+    ttyStep raw t .releaseOnly = restoreInput t ∧
+    ttyStep raw t .restoreOnly = initInput raw t :=
+  ⟨rfl, rfl, rfl⟩
+
+/-- TERMIOS MAIN THEOREM. For all settings `s0` before Run, every `raw`, any number of Execs
+(every history consisting of `exec` events), every exit path, terminal or not: when Run returns
+the settings are `s0` again. On a terminal the whole final state is known: `s0` is still
+remembered. -/
+theorem C05_termios_restored (raw : σ → σ) (isTty : Bool) (s0 : σ) (evs : List TtyEvent)
+    (k : ExitKind) (h : ∀ e ∈ evs, e = .exec) :
+    (runTty raw isTty s0 evs k).final.cur = s0 ∧
+    (isTty = true → (runTty raw isTty s0 evs k).final = ⟨s0, some s0, true⟩) := by
+  cases isTty with
+  | false =>
+    have h1 := (events_notTty raw (ttyFresh false s0) evs rfl).1
+    refine ⟨?_, by simp⟩
+    show (ttyExit (ttyEvents raw (ttyFresh false s0) evs) k).cur = s0
+    rw [h1, ttyExit_eq, restoreInput_fresh]; rfl
+  | true =>
+    have h1 := (execs_taken raw s0 evs h).1
+    have hf : (runTty raw true s0 evs k).final = ⟨s0, some s0, true⟩ := by
+      show ttyExit (ttyEvents raw (taken raw s0) evs) k = released s0
+      rw [h1, ttyExit_taken]
+    exact ⟨by rw [hf], fun _ => hf⟩
+
+/-- the same when the history contains `releaseOnly` events anywhere - in particular when it ends
+with them (quit while released): for every history WITHOUT `restoreOnly` -/
+theorem C05_termios_restored_release (raw : σ → σ) (isTty : Bool) (s0 : σ) (evs : List TtyEvent)
+    (k : ExitKind) (h : ∀ e ∈ evs, e ≠ .restoreOnly) :
+    (runTty raw isTty s0 evs k).final.cur = s0 := by
+  cases isTty with
+  | false =>
+    have h1 := (events_notTty raw (ttyFresh false s0) evs rfl).1
+    show (ttyExit (ttyEvents raw (ttyFresh false s0) evs) k).cur = s0
+    rw [h1, ttyExit_eq, restoreInput_fresh]; rfl
+  | true =>
+    obtain ⟨rel, h1⟩ := alternating_phase raw s0 evs false (alternating_of_no_restoreOnly evs false h)
+    show (ttyExit (ttyEvents raw (phase raw s0 false) evs) k).cur = s0
+    rw [h1, ttyExit_phase]; rfl
+
+/-- the literal form: `n` Execs, then `m` ReleaseTerminal calls, then the exit -/
+theorem C05_termios_restored_release_tail (raw : σ → σ) (isTty : Bool) (s0 : σ) (n m : Nat)
+    (k : ExitKind) :
+    (runTty raw isTty s0 (List.replicate n .exec ++ List.replicate m .releaseOnly) k).final.cur = s0 := by
+  apply C05_termios_restored_release
+  intro e he
+  rw [List.mem_append] at he
+  rcases he with he | he <;> rw [List.eq_of_mem_replicate he] <;> decide
+
+/-- the exact scope: every history in which releases and restores ALTERNATE - `restoreOnly` only
+while released, `exec` and `releaseOnly` anywhere (`alternating`, Tea/Render/Tty.lean) -/
+theorem C05_termios_restored_alternating (raw : σ → σ) (s0 : σ) (evs : List TtyEvent)
+    (k : ExitKind) (h : alternating false evs = true) :
+    (runTty raw true s0 evs k).final = ⟨s0, some s0, true⟩ := by
+  obtain ⟨rel, h1⟩ := alternating_phase raw s0 evs false h
+  show ttyExit (ttyEvents raw (phase raw s0 false) evs) k = released s0
+  rw [h1, ttyExit_phase]
+
+/-- if the input is not a terminal nothing is ever changed: for EVERY history (misuse included)
+and every exit the state is the initial one, nothing is remembered, and the settings every
+external command finds and those between the events are `s0` -/
+theorem C05_termios_not_tty (raw : σ → σ) (s0 : σ) (evs : List TtyEvent) (k : ExitKind) :
+    (runTty raw false s0 evs k).final = ⟨s0, none, false⟩ ∧
+    (∀ x ∈ (runTty raw false s0 evs k).during, x = s0) ∧
+    (∀ x ∈ (runTty raw false s0 evs k).between, x = s0) := by
+  obtain ⟨h1, h2, h3⟩ := events_notTty raw (ttyFresh false s0) evs rfl
+  refine ⟨?_, h2, ?_⟩
+  · show ttyExit (ttyEvents raw (ttyFresh false s0) evs) k = ttyFresh false s0
+    rw [h1, ttyExit_eq, restoreInput_fresh]
+  · intro x hx
+    have hx' : x ∈ s0 :: ttyBetweenAll raw (ttyFresh false s0) evs := hx
+    rw [List.mem_cons] at hx'
+    rcases hx' with hx' | hx'
+    · exact hx'
+    · exact h3 x hx'
+
+/-- MISUSE, outside the scope of `C05_termios_restored`: RestoreTerminal called while the
+terminal is NOT released (twice in a row, or without a ReleaseTerminal) remembers the RAW
+settings in place of the original ones; every later restore - Execs before and after make no
+difference, nor does the exit path - puts the raw settings back. When Run returns the settings
+are `raw s0`, and they differ from `s0` as soon as `raw` changes `s0`. -/
+theorem C05_termios_double_restore_misuse (raw : σ → σ) (s0 : σ) (evs1 evs2 : List TtyEvent)
+    (k : ExitKind) (h1 : ∀ e ∈ evs1, e = .exec) (h2 : ∀ e ∈ evs2, e = .exec) :
+    (runTty raw true s0 (evs1 ++ [.restoreOnly] ++ evs2) k).final = ⟨raw s0, some (raw s0), true⟩ ∧
+    (raw s0 ≠ s0 → (runTty raw true s0 (evs1 ++ [.restoreOnly] ++ evs2) k).final.cur ≠ s0) := by
+  have hf : (runTty raw true s0 (evs1 ++ [.restoreOnly] ++ evs2) k).final =
+      ⟨raw s0, some (raw s0), true⟩ := by
+    show ttyExit (ttyEvents raw (taken raw s0) (evs1 ++ [.restoreOnly] ++ evs2)) k = released (raw s0)
+    rw [ttyEvents_append, ttyEvents_append, (execs_taken raw s0 evs1 h1).1]
+    show ttyExit (ttyEvents raw (taken raw (raw s0)) evs2) k = released (raw s0)
+    rw [(execs_taken raw (raw s0) evs2 h2).1, ttyExit_taken]
+  exact ⟨hf, fun hne => by rw [hf]; exact hne⟩
+
+/-- the commands run by the Execs AFTER the misuse find the raw settings, not the original ones -/
+theorem C05_termios_double_restore_misuse_during (raw : σ → σ) (s0 : σ) (evs2 : List TtyEvent)
+    (k : ExitKind) (h2 : ∀ e ∈ evs2, e = .exec) :
+    (runTty raw true s0 (.restoreOnly :: evs2) k).during = List.replicate evs2.length (raw s0) := by
+  show [] ++ ttyDuringAll raw (taken raw (raw s0)) evs2 = _
+  rw [(execs_taken raw (raw s0) evs2 h2).2.1]; rfl
+
+/-- start-up failure: `initInput` succeeded, a later start-up step failed, and Run's early-return
+path calls `restoreTerminalState`: the settings are `s0` again (terminal or not). If the failure
+comes before `initInput`, or MakeRaw itself fails, nothing is remembered and nothing is done. -/
+theorem C05_termios_startup_failure (raw : σ → σ) (isTty : Bool) (s0 : σ) :
+    (startupFailureTty raw isTty s0).cur = s0 ∧
+    restoreInput (⟨s0, none, isTty⟩ : TtyState σ) = ⟨s0, none, isTty⟩ := by
+  cases isTty <;> exact ⟨rfl, rfl⟩
+
+/-- Kill() followed by Run's own shutdown: the second `restoreInput` changes nothing, in any state -/
+theorem C05_termios_restore_idempotent (t : TtyState σ) :
+    restoreInput (restoreInput t) = restoreInput t :=
+  restoreInput_idem t
+
+end Termios
+
+/-! ### non-vacuity (termios): σ = Nat, raw = (· + 100), settings 7 before Run -/
+
+/-- three Execs then each exit path; quit while released; not a terminal -/
+example :
+    runTty (· + 100) true 7 [.exec, .exec, .exec] .quit =
+      { final := ⟨7, some 7, true⟩, during := [7, 7, 7], between := [107, 107, 107, 107] } ∧
+    (runTty (· + 100) true 7 [.exec, .exec, .exec] .ctx).final.cur = 7 ∧
+    (runTty (· + 100) true 7 [.exec, .exec, .exec] .killApi).final.cur = 7 ∧
+    runTty (· + 100) true 7 [] .killApi = { final := ⟨7, some 7, true⟩, during := [], between := [107] } ∧
+    runTty (· + 100) true 7 [.exec, .releaseOnly, .releaseOnly] .quit =
+      { final := ⟨7, some 7, true⟩, during := [7], between := [107, 107, 7, 7] } ∧
+    runTty (· + 100) true 7 [.releaseOnly, .restoreOnly, .exec] .quit =
+      { final := ⟨7, some 7, true⟩, during := [7], between := [107, 7, 107, 107] } ∧
+    runTty (· + 100) false 7 [.exec, .restoreOnly, .restoreOnly] .killApi =
+      { final := ⟨7, none, false⟩, during := [7], between := [7, 7, 7, 7] } := by
+  decide
+
+/-- the misuse: a second RestoreTerminal remembers 107; the next command finds 107 and so does
+the shell after Run; a third one would remember 207 -/
+example :
+    runTty (· + 100) true 7 [.exec, .restoreOnly, .exec] .quit =
+      { final := ⟨107, some 107, true⟩, during := [7, 107], between := [107, 107, 207, 207] } ∧
+    (runTty (· + 100) true 7 [.restoreOnly, .restoreOnly] .killApi).final = ⟨207, some 207, true⟩ ∧
+    alternating false [.exec, .restoreOnly, .exec] = false ∧
+    alternating false [.releaseOnly, .restoreOnly, .exec] = true := by
+  decide
+
+/-- start-up failure after `initInput`: raw mode had been entered, and is left again -/
+example :
+    initInput (· + 100) (ttyFresh true 7) = ⟨107, some 7, true⟩ ∧
+    startupFailureTty (· + 100) true 7 = ⟨7, some 7, true⟩ ∧
+    startupFailureTty (· + 100) false 7 = ⟨7, none, false⟩ := by
+  decide
 
 end Tea.Props.C05
